@@ -30,21 +30,22 @@ LEVEL = "proof"
 MANIFEST = {
     "category": "proof",
     "text": ("Lean 4 theorems about an executable model of databoxes/_exports.py, _imports.py, main.py, _merge.py and dataslates, for "
-             "arbitrary numbers of blocks, series, variants, rows and operations. CSV (partial): on what the exporter writes for any "
-             "list of frequency blocks with admissible names (non-empty, not `*`, not starting with `__`) the importer's block iterator "
-             "recovers exactly the blocks (frequency, date column, width) and its column iterator every series (first column, variant "
-             "count, name, description -- descriptions unrestricted); a trimmed series padded to the block's common span trims back to "
-             "its own start and rows; scalars and lists are not exported; the assembled statement import(export db) = series part of db "
-             "is stated but its assembly through the zipped rows is not proved (covered by exact correspondence on real files). "
-             "Dataslate: the record of a selected series is its own column min(v, k-1) on the span, NaN for absent names, other "
-             "frequencies are rejected, fallbacks change NaN cells only, overwrites all cells, only for declared names, clipping keeps "
-             "exactly the base columns; removing periods from the start / end of a dataslate drops exactly the base periods that "
-             "were removed. Explicitly selected export periods (any order or step) are written next to the series' own rows. "
-             "Databox operations (rename, remove, keep, copy, overlay, underlay, clip, prepend, merge): every "
-             "operation and every sequence of operations (induction) leaves all entries outside the operations' selected names "
-             "identical and in order. The model is tied to the code on every run by exact comparison of the parsed CSV grid, the "
-             "re-imported databox, dataslate arrays and one-step databox operations (symbolic series terms evaluated with the real "
-             "Series methods), plus independent oracles on the real objects that supply the replay."),
+             "arbitrary numbers of blocks, series, variants, rows and operations. CSV: `csv_roundtrip` -- for every well-formed "
+             "databox (series of any mix of frequencies incl. integer and empty series, 1..k variants, any starts, lengths and NaN "
+             "patterns; names distinct, non-empty, not `*`, not starting with `__`; data trimmed as Series keeps it; a series with "
+             "data whenever there is an empty one) and every cell codec whose parsing inverts its printing, importing the exported "
+             "grid returns exactly the series of the databox: names (grouped by frequency in block order), descriptions when the row "
+             "is on (unrestricted, even `*`), frequency, start, length, variants, NaN mask and every cell token; scalars and lists "
+             "are not exported; for explicitly selected periods (any order or step) the exported rows are the series' own rows. "
+             "Dataslate: `slate_roundtrip_cells/_series/_absent` -- to_databox(from_databox(db, names, span)) binds every selected "
+             "name to a series on the span whose cell (period i, variant v) is the input cell of column min(v, k-1) (NaN outside the "
+             "series, NaN for absent names), changed only by a declared fallback (NaN cells) or overwrite (all cells); other "
+             "frequencies are rejected; removing periods from the start / end drops exactly the removed base periods. Databox "
+             "operations (rename, remove, keep, copy, overlay, underlay, clip, prepend, merge): every operation and every sequence "
+             "(induction) leaves all entries outside the selected names identical and in order. The model is tied to the code on "
+             "every run by exact comparison of the parsed CSV grid, the re-imported databox, dataslate arrays and period operations, "
+             "and one-step databox operations (symbolic series terms evaluated with the real Series methods), plus independent "
+             "oracles on the real objects that supply the replay."),
     "design": "7/C19",
     "note": ("repr(float), numpy.round, numpy.genfromtxt, csv quoting and Period.from_sdmx_string are runtime facts: observed on "
              "every generated case, not proved; the series-level semantics of overlay/underlay/clip/hstack are property C10's."),
